@@ -8,13 +8,28 @@
      (P1) the fifty-move counter of p is below 99, so the child's counter is below 100 (no fifty-move draw there);
      (P2) the mated position is not seen as a repetition by the child's draw test;
      (P3) the table never answers for the key k of the mated position: no entry carries k initially (`NoKey`), and no
-          position of the search tree that has a legal move (only such positions are stored) has the key k (`Safe`,
+          position of the search tree that has a legal move (only such positions are stored) has the key k (`SafeN`,
           a no-collision premise; the mated position itself is never stored because it has no move);
-     (P4) the stop predicate does not fire during the iteration. *)
+     (P4) the stop predicate does not fire during the iteration.
+
+   About (P3), the tree.  `SafeN fuel k p` speaks only about the positions that are at most `fuel` plies (generated
+   moves, and null moves out of check) away from the root p, where `fuel` is the fuel argument `root` is run with:
+   `negamax (S f)` searches the children of its node with `negamax f`, so a run with fuel `fuel` cannot reach (let alone
+   store) anything further away.  It concerns collisions with ONE key, the key k of the mated position: nothing is
+   assumed about two other positions of the tree sharing a key.  The result of `root` does not depend on the fuel once
+   it is defined (proofs/FuelFacts.v, `root_fuel_mono`), so the premise may be checked for the smallest fuel with which
+   the search returns: this is `mate_in_one_is_played_anyfuel` below (`root` with fuel0 returns, `SafeN fuel0`, and the
+   conclusion holds for every run with fuel >= fuel0, with no bound on that fuel).
+   `SafeN n k p` is decidable by enumeration for small n (`safeb`, `safeb_sound`); in the worked example at the end of
+   the file it is discharged by computation for fuel 3 (`ex_closed`: no premise about the tree is left).
+   The earlier, much stronger premise `Safe k p` (NO position reachable from p by any number of moves has the key k -- in
+   a middlegame that set is so large that the premise is practically false) implies `SafeN n k p` for every n
+   (`Safe_SafeN`); the statements with that premise are kept as the corollaries `mate_in_one_is_played_safe`,
+   `mate_in_one_is_played_unlimited_safe`, `mate_in_one_is_played_fresh_safe`. *)
 From Coq Require Import NArith ZArith List Bool Lia Permutation.
 From Rawr Require Import Consts Bits Magic Position MoveGen MakeMove MakeStages Eval TT Search
                          Closure MenCount EpRetro TTFacts SearchFacts SearchFacts2 SearchBound RootDraw WindowHonest.
-From Rawr Require GenLegal SearchTotal.
+From Rawr Require GenLegal SearchTotal FuelFacts.
 Import ListNotations.
 Local Open Scope Z_scope.
 
@@ -42,6 +57,91 @@ Proof. intros H Hc q Hq. apply H. exact (Reach_trans p _ q (reach_null p p (reac
 Lemma Safe_self k p : Safe k p -> legal_moves p <> [] -> hash p <> k.
 Proof. intros H. exact (H p (reach_refl p)). Qed.
 
+(* the same, counting the steps: `ReachN p n q` = q is reachable from p in at most n steps.  The search started with
+   fuel n visits only such positions *)
+Inductive ReachN (p : Position) : nat -> Position -> Prop :=
+| reachn_refl n : ReachN p n p
+| reachn_move n q m : ReachN p n q -> In m (legal_moves q) -> ReachN p (S n) (makemove true q m)
+| reachn_null n q : ReachN p n q -> in_check q = false -> ReachN p (S n) (makenull q).
+
+Definition SafeN (n : nat) (k : N) (p : Position) : Prop := forall q, ReachN p n q -> legal_moves q <> [] -> hash q <> k.
+
+Lemma ReachN_S p n q : ReachN p n q -> ReachN p (S n) q.
+Proof.
+  intros H. induction H as [n|n q m _ IH Hm|n q _ IH Hc];
+    [exact (reachn_refl p (S n))|exact (reachn_move p (S n) q m IH Hm)|exact (reachn_null p (S n) q IH Hc)].
+Qed.
+Lemma ReachN_le p n n' q : (n <= n')%nat -> ReachN p n q -> ReachN p n' q.
+Proof. intros Hle H. induction Hle as [|n' _ IH]; [exact H|exact (ReachN_S p n' q IH)]. Qed.
+Lemma ReachN_trans p a q b r : ReachN p a q -> ReachN q b r -> ReachN p (a + b) r.
+Proof.
+  intros Hpq Hqr. induction Hqr as [b|b r m _ IH Hm|b r _ IH Hc].
+  - exact (ReachN_le p a (a + b) q (Nat.le_add_r a b) Hpq).
+  - rewrite Nat.add_succ_r. exact (reachn_move p (a + b) r m IH Hm).
+  - rewrite Nat.add_succ_r. exact (reachn_null p (a + b) r IH Hc).
+Qed.
+Lemma ReachN_Reach p n q : ReachN p n q -> Reach p q.
+Proof.
+  intros H. induction H as [n|n q m _ IH Hm|n q _ IH Hc]; [exact (reach_refl p)|exact (reach_move p q m IH Hm)|exact (reach_null p q IH Hc)].
+Qed.
+Lemma Reach_ReachN p q : Reach p q -> exists n, ReachN p n q.
+Proof.
+  intros H. induction H as [|q m _ (n & IH) Hm|q _ (n & IH) Hc];
+    [exists 0%nat; exact (reachn_refl p 0)|exists (S n); exact (reachn_move p n q m IH Hm)|exists (S n); exact (reachn_null p n q IH Hc)].
+Qed.
+
+Lemma SafeN_move n k p m : SafeN (S n) k p -> In m (legal_moves p) -> SafeN n k (makemove true p m).
+Proof. intros H Hm q Hq. apply H. exact (ReachN_trans p 1 _ n q (reachn_move p 0 p m (reachn_refl p 0) Hm) Hq). Qed.
+Lemma SafeN_null n k p : SafeN (S n) k p -> in_check p = false -> SafeN n k (makenull p).
+Proof. intros H Hc q Hq. apply H. exact (ReachN_trans p 1 _ n q (reachn_null p 0 p (reachn_refl p 0) Hc) Hq). Qed.
+Lemma SafeN_self n k p : SafeN n k p -> legal_moves p <> [] -> hash p <> k.
+Proof. intros H. exact (H p (reachn_refl p n)). Qed.
+Lemma SafeN_S n k p : SafeN (S n) k p -> SafeN n k p.
+Proof. intros H q Hq. apply H. exact (ReachN_S p n q Hq). Qed.
+Lemma SafeN_le n n' k p : (n <= n')%nat -> SafeN n' k p -> SafeN n k p.
+Proof. intros Hle H q Hq. apply H. exact (ReachN_le p n n' q Hle Hq). Qed.
+(* the old premise is the conjunction of the new ones over all n *)
+Lemma Safe_SafeN n k p : Safe k p -> SafeN n k p.
+Proof. intros H q Hq. apply H. exact (ReachN_Reach p n q Hq). Qed.
+Lemma SafeN_all_Safe k p : (forall n, SafeN n k p) -> Safe k p.
+Proof. intros H q Hq. destruct (Reach_ReachN p q Hq) as (n & Hn). exact (H n q Hn). Qed.
+
+(* `SafeN n k p` is decidable by enumeration (feasible for small n): the positions are taken from the root outwards *)
+Fixpoint safeb (n : nat) (k : N) (p : Position) : bool :=
+  (match legal_moves p with [] => true | _ => negb (hash p =? k)%N end) &&
+  match n with
+  | O => true
+  | S n' => forallb (fun m => safeb n' k (makemove true p m)) (legal_moves p) && (in_check p || safeb n' k (makenull p))
+  end.
+
+Lemma ReachN_head p n q : ReachN p n q ->
+  q = p \/ exists n', n = S n' /\ ((exists m, In m (legal_moves p) /\ ReachN (makemove true p m) n' q)
+                                   \/ (in_check p = false /\ ReachN (makenull p) n' q)).
+Proof.
+  intros H. induction H as [n|n q m H IH Hm|n q H IH Hc].
+  - left. reflexivity.
+  - right. exists n. split; [reflexivity|]. destruct IH as [->|(n' & -> & [(m0 & Hm0 & Hr)|(Hc0 & Hr)])].
+    + left. exists m. split; [exact Hm|exact (reachn_refl _ n)].
+    + left. exists m0. split; [exact Hm0|exact (reachn_move _ n' q m Hr Hm)].
+    + right. split; [exact Hc0|exact (reachn_move _ n' q m Hr Hm)].
+  - right. exists n. split; [reflexivity|]. destruct IH as [->|(n' & -> & [(m0 & Hm0 & Hr)|(Hc0 & Hr)])].
+    + right. split; [exact Hc|exact (reachn_refl _ n)].
+    + left. exists m0. split; [exact Hm0|exact (reachn_null _ n' q Hr Hc)].
+    + right. split; [exact Hc0|exact (reachn_null _ n' q Hr Hc)].
+Qed.
+
+Lemma safeb_sound k : forall n p, safeb n k p = true -> SafeN n k p.
+Proof.
+  induction n as [|n IH]; intros p H q Hq Hne; cbn [safeb] in H; apply andb_true_iff in H; destruct H as [H0 H1].
+  - destruct (ReachN_head p 0 q Hq) as [->|(n' & E & _)]; [|discriminate E].
+    destruct (legal_moves p); [exfalso; apply Hne; reflexivity|]. apply negb_true_iff in H0. apply N.eqb_neq. exact H0.
+  - destruct (ReachN_head p (S n) q Hq) as [->|(n' & E & Hr)].
+    + destruct (legal_moves p); [exfalso; apply Hne; reflexivity|]. apply negb_true_iff in H0. apply N.eqb_neq. exact H0.
+    + injection E as <-. apply andb_true_iff in H1. destruct H1 as [Hm Hn]. destruct Hr as [(m & Hin & Hr)|(Hc & Hr)].
+      * rewrite forallb_forall in Hm. exact (IH _ (Hm m Hin) q Hr Hne).
+      * rewrite Hc in Hn. cbn [orb] in Hn. exact (IH _ Hn q Hr Hne).
+Qed.
+
 Lemma NoKey_add k t key e t' : NoKey k t -> e_hash e <> k -> tt_add t key e = Some t' -> NoKey k t'.
 Proof.
   intros Ht He H. unfold tt_add, t_add in H. destruct (get_idx TTEntry t key) as [i|]; [|discriminate]. injection H as <-.
@@ -56,10 +156,11 @@ Section NoKeyThread.
 Variable stopf : Stats -> bool.
 Variable k : N.
 
-Definition nkey (rec : NRec) : Prop :=
-  forall q s a b pl d cn v s', rec q s a b pl d cn = Some (v, s') -> NoKey k (ss_tt s) -> Safe k q -> NoKey k (ss_tt s').
+(* n = the number of plies below its node that rec may explore *)
+Definition nkey (rec : NRec) (n : nat) : Prop :=
+  forall q s a b pl d cn v s', rec q s a b pl d cn = Some (v, s') -> NoKey k (ss_tt s) -> SafeN n k q -> NoKey k (ss_tt s').
 
-Lemma search_move_nk rec p in_chk beta ply depth idx m np s alpha score s' : nkey rec -> Safe k np -> NoKey k (ss_tt s) ->
+Lemma search_move_nk rec n p in_chk beta ply depth idx m np s alpha score s' : nkey rec n -> SafeN n k np -> NoKey k (ss_tt s) ->
   search_move rec p in_chk beta ply depth idx m np s alpha = Some (score, s') -> NoKey k (ss_tt s').
 Proof.
   intros Hr Hs Ht H. unfold search_move in H. destruct (idx =? 0).
@@ -73,7 +174,7 @@ Proof.
     + destruct (some_pair_inv _ _ _ _ H) as [_ <-]. exact Ht1.
 Qed.
 
-Lemma n_loop_nk rec p in_chk beta ply depth : nkey rec -> Safe k p ->
+Lemma n_loop_nk rec n p in_chk beta ply depth : nkey rec n -> SafeN (S n) k p ->
   forall ms idx s alpha best bm r, (forall m, In m ms -> In m (legal_moves p)) -> NoKey k (ss_tt s) ->
   n_loop rec p in_chk beta ply depth ms idx s alpha best bm = Some r -> NoKey k (ss_tt (snd r)).
 Proof.
@@ -81,7 +182,7 @@ Proof.
   - injection H as <-. cbn [snd]. exact Ht.
   - match type of H with match ?x with _ => _ end = _ => destruct x as [[score s1]|] eqn:E; [|discriminate] end.
     assert (Hm : In m (legal_moves p)) by (apply Hms; left; reflexivity).
-    apply search_move_nk in E; [|exact Hr|exact (Safe_move k p m Hs Hm)|exact Ht].
+    apply (search_move_nk rec n) in E; [|exact Hr|exact (SafeN_move n k p m Hs Hm)|exact Ht].
     assert (Ht1 : NoKey k (ss_tt (pop_hist s1))) by exact E.
     cbn zeta in H.
     destruct (best <? score).
@@ -93,7 +194,7 @@ Proof.
       * exact (IH _ _ _ _ _ _ (fun x Hx => Hms x (or_intror Hx)) Ht1 H).
 Qed.
 
-Lemma null_move_nk rec p s is_root cn beta ply depth r s' : nkey rec -> Safe k p -> NoKey k (ss_tt s) ->
+Lemma null_move_nk rec n p s is_root cn beta ply depth r s' : nkey rec n -> SafeN (S n) k p -> NoKey k (ss_tt s) ->
   null_move rec p s is_root cn (in_check p) beta ply depth = Some (r, s') -> NoKey k (ss_tt s').
 Proof.
   intros Hr Hs Ht H. unfold null_move in H.
@@ -101,7 +202,7 @@ Proof.
   - match type of H with match ?x with _ => _ end = _ => destruct x as [[v s1]|] eqn:E; [|discriminate] end.
     assert (Hchk : in_check p = false).
     { apply andb_true_iff in Ec. destruct Ec as [Ec _]. apply andb_true_iff in Ec. destruct Ec as [_ Ec]. apply negb_true_iff in Ec. exact Ec. }
-    pose proof (Hr _ (push_hist s (hash (makenull p))) _ _ _ _ _ _ _ E Ht (Safe_null k p Hs Hchk)) as Ht1. cbn zeta in H.
+    pose proof (Hr _ (push_hist s (hash (makenull p))) _ _ _ _ _ _ _ E Ht (SafeN_null n k p Hs Hchk)) as Ht1. cbn zeta in H.
     destruct (beta <=? - v); destruct (some_pair_inv _ _ _ _ H) as [_ <-]; exact Ht1.
   - destruct (some_pair_inv _ _ _ _ H) as [_ <-]. exact Ht.
 Qed.
@@ -116,25 +217,25 @@ Proof.
   - intros H. destruct (some_pair_inv _ _ _ _ H) as [_ <-]. exact Ht.
 Qed.
 
-Lemma nm_moves_nk rec p s ao alpha beta ply depth is_root cn ttm v s' : nkey rec -> Safe k p -> NoKey k (ss_tt s) ->
+Lemma nm_moves_nk rec n p s ao alpha beta ply depth is_root cn ttm v s' : nkey rec n -> SafeN (S n) k p -> NoKey k (ss_tt s) ->
   nm_moves rec p s ao alpha beta ply depth (in_check p) is_root cn ttm = Some (v, s') -> NoKey k (ss_tt s').
 Proof.
   intros Hr Hs Ht H. unfold nm_moves in H.
   destruct (null_move rec p s is_root cn (in_check p) beta ply depth) as [[oc s1]|] eqn:En; [|discriminate].
-  apply null_move_nk in En; [|exact Hr|exact Hs|exact Ht].
+  apply (null_move_nk rec n) in En; [|exact Hr|exact Hs|exact Ht].
   destruct oc as [cut|].
   - destruct (some_pair_inv _ _ _ _ H) as [_ <-]. exact En.
   - destruct (n_loop rec p (in_check p) beta ply depth (sort_n p (legal_moves p) ttm) 0 s1 alpha (- INF) None) as [r|] eqn:El; [|discriminate].
     assert (Hleg : forall m, In m (sort_n p (legal_moves p) ttm) -> In m (legal_moves p)).
     { intros m Hm. apply (Permutation_in _ (sort_n_perm p (legal_moves p) ttm)). exact Hm. }
     pose proof (n_loop_best_in _ _ _ _ _ _ _ _ _ _ _ _ _ El) as Hbm.
-    apply n_loop_nk in El; [|exact Hr|exact Hs|exact Hleg|exact En].
+    apply (n_loop_nk rec n) in El; [|exact Hr|exact Hs|exact Hleg|exact En].
     apply (nm_finish_nk _ _ _ _ _ _ _ _ _ _ _ El) in H; [exact H|].
     intros Hne. destruct Hbm as [Hbm|(m & _ & Hin)]; [contradiction|].
-    apply (Safe_self k p Hs). intros E. apply Hleg in Hin. rewrite E in Hin. exact Hin.
+    apply (SafeN_self (S n) k p Hs). intros E. apply Hleg in Hin. rewrite E in Hin. exact Hin.
 Qed.
 
-Lemma nm_prune_nk rec qrec p s ao alpha beta ply depth is_root is_pv cn ttm v s' : nkey rec -> Safe k p -> NoKey k (ss_tt s) ->
+Lemma nm_prune_nk rec n qrec p s ao alpha beta ply depth is_root is_pv cn ttm v s' : nkey rec n -> SafeN (S n) k p -> NoKey k (ss_tt s) ->
   nm_prune stopf rec qrec p s ao alpha beta ply depth (in_check p) is_root is_pv cn ttm = Some (v, s') -> NoKey k (ss_tt s').
 Proof.
   intros Hr Hs Ht H. unfold nm_prune in H.
@@ -148,10 +249,10 @@ Proof.
     { destruct (some_pair_inv _ _ _ _ H) as [_ <-]. exact Ht. }
     match type of H with (if ?c then _ else _) = _ => destruct c end.
     { destruct (some_pair_inv _ _ _ _ H) as [_ <-]. exact Ht. }
-    exact (nm_moves_nk rec p s ao alpha beta ply depth is_root cn ttm v s' Hr Hs Ht H).
+    exact (nm_moves_nk rec n p s ao alpha beta ply depth is_root cn ttm v s' Hr Hs Ht H).
 Qed.
 
-Lemma nm_body_nk rec qrec p s alpha beta ply depth cn v s' : nkey rec -> Safe k p -> NoKey k (ss_tt s) ->
+Lemma nm_body_nk rec n qrec p s alpha beta ply depth cn v s' : nkey rec n -> SafeN (S n) k p -> NoKey k (ss_tt s) ->
   nm_body stopf rec qrec p s alpha beta ply depth cn = Some (v, s') -> NoKey k (ss_tt s').
 Proof.
   intros Hr Hs Ht H. unfold nm_body in H. cbv zeta in H.
@@ -161,13 +262,13 @@ Proof.
   { destruct (some_pair_inv _ _ _ _ H) as [_ <-]. exact Ht. }
   match type of H with (if ?c then _ else _) = _ => destruct c end.
   { destruct (some_pair_inv _ _ _ _ H) as [_ <-]. exact Ht. }
-  apply nm_prune_nk in H; assumption.
+  apply (nm_prune_nk rec n) in H; assumption.
 Qed.
 
-Theorem negamax_nk : forall fuel, nkey (negamax stopf fuel).
+Theorem negamax_nk : forall fuel, nkey (negamax stopf fuel) fuel.
 Proof.
   induction fuel as [|f IH]; intros q s a b pl d cn v s' H Ht Hs; [discriminate|].
-  cbn [negamax] in H. exact (nm_body_nk (negamax stopf f) (qsearch f) q s a b pl d cn v s' IH Hs Ht H).
+  cbn [negamax] in H. exact (nm_body_nk (negamax stopf f) f (qsearch f) q s a b pl d cn v s' IH Hs Ht H).
 Qed.
 
 End NoKeyThread.
@@ -241,8 +342,8 @@ Hypothesis HM : In M (legal_moves p).
 Hypothesis Hmate : mates p M.
 Hypothesis Hhm : halfmoves c < 100.                        (* from (P1) *)
 Hypothesis Hrep : NoRep c (k :: hist).                     (* (P2) *)
-Hypothesis Hsafe : Safe k p.                               (* (P3), the tree *)
 Hypothesis Hstop : forall st, st_depth st = D -> stopf st = false.   (* (P4) *)
+(* (P3), the tree, is a premise of the lemmas below, for the fuel they are stated with *)
 
 (* the score of the mating move, in whichever way the root searches it *)
 Lemma score_M f in_chk depth idx s alpha score s' :
@@ -286,14 +387,14 @@ Definition RI (best : Z) (bm : option Mv) : Prop :=
 Lemma RI_init : RI (- INF) None.
 Proof. unfold RI, hi, INF, MATE_SCORE. split; [lia|]. intros E. exfalso. lia. Qed.
 
-Lemma root_moves_mate f in_chk depth : Z.of_nat f + 1 <= PLYMAX -> 1 <= depth ->
+Lemma root_moves_mate f in_chk depth : Z.of_nat f + 1 <= PLYMAX -> 1 <= depth -> SafeN (S f) k p ->
   forall ms idx s best bm r, (forall m, In m ms -> In m (legal_moves p)) ->
   TBnd (ss_tt s) -> NoKey k (ss_tt s) -> ss_hist s = hist -> st_depth (ss_stats s) = D ->
   RI best bm -> In M ms \/ best = hi 0 ->
   n_loop (negamax stopf f) p in_chk INF 0 depth ms idx s best best bm = Some r ->
   snd (fst (fst r)) = hi 0 /\ RI (snd (fst (fst r))) (snd (fst r)).
 Proof.
-  intros Hf Hd.
+  intros Hf Hd Hsafe.
   pose proof (negamax_whon_rec stopf f PLYMAX ltac:(lia)) as Hw.
   pose proof (negamax_nbnd_rec stopf f PLYMAX ltac:(unfold PLYMAX, VB, MATE_SCORE; lia)) as Hr.
   assert (Hpl : 0 <= 0 + 1 <= PLYMAX - Z.of_nat f) by lia.
@@ -309,7 +410,7 @@ Proof.
     assert (Hsd0 : st_depth (ss_stats s0) = D) by exact Hsd.
     pose proof (search_move_bnd GenLegal.gen_legal _ _ _ _ _ _ _ _ _ _ _ _ _ _ Hr Hnp Ht0 Hpl E) as (Hsb & Ht1).
     pose proof (search_move_hon _ _ _ _ _ _ _ _ _ _ _ _ _ _ Hw Hr Hnp Ht0 Hpl E) as Hhon.
-    pose proof (search_move_nk k _ _ _ _ _ _ _ _ _ _ _ _ _ (negamax_nk stopf k f) (Safe_move k p m Hsafe Hm) Hnk0 E) as Hnk1.
+    pose proof (search_move_nk k _ f _ _ _ _ _ _ _ _ _ _ _ _ (negamax_nk stopf k f) (SafeN_move f k p m Hsafe Hm) Hnk0 E) as Hnk1.
     pose proof (search_move_hist _ _ _ _ _ _ _ _ _ _ _ _ _ (negamax_keeps_history stopf f) E) as Hh1.
     pose proof (search_move_K _ _ _ _ _ _ _ _ _ _ _ _ _ (negamax_K stopf f) E) as (_ & Hsd1).
     assert (Ht1' : TBnd (ss_tt (pop_hist s1))) by exact Ht1.
@@ -338,13 +439,13 @@ Proof.
 Qed.
 
 (* Key lemma B: the whole iteration *)
-Lemma root_iter_mate fuel s v s1 : Z.of_nat fuel <= PLYMAX -> 1 <= D ->
+Lemma root_iter_mate fuel s v s1 : Z.of_nat fuel <= PLYMAX -> 1 <= D -> SafeN fuel k p ->
   TBnd (ss_tt s) -> NoKey k (ss_tt s) -> ss_hist s = hist -> st_depth (ss_stats s) = D ->
   negamax stopf fuel p s (- INF) INF 0 D false = Some (v, s1) ->
   v = MATE_SCORE - 1 /\ (exists bm, st_best (ss_stats s1) = Some bm /\ In bm (legal_moves p) /\ mates p bm) /\
   TBnd (ss_tt s1) /\ NoKey k (ss_tt s1) /\ ss_hist s1 = hist /\ st_depth (ss_stats s1) = D.
 Proof.
-  intros Hf HD Ht Hnk Hh Hsd H.
+  intros Hf HD Hsafe Ht Hnk Hh Hsd H.
   pose proof (negamax_bnd stopf GenLegal.gen_legal fuel (2 * VB) ltac:(lia) p s _ _ 0 _ _ _ _ Hp Ht ltac:(lia)
                 ltac:(unfold PLYMAX, VB, MATE_SCORE in *; lia) H) as (_ & Ht1).
   pose proof (negamax_nk stopf k fuel _ _ _ _ _ _ _ _ _ H Hnk Hsafe) as Hnk1.
@@ -362,7 +463,7 @@ Proof.
     assert (HMin : In M (sort_n p (legal_moves p) (ttm_of p tte))).
     { exact (Permutation_in _ (Permutation_sym (sort_n_perm p (legal_moves p) _)) HM). }
     apply (root_moves_mate f (in_check p) d') in El;
-      [|rewrite Nat2Z.inj_succ in Hf; lia|exact Hd'|exact Hleg|exact Ht|exact Hnk|exact Hh|exact (eq_trans (upd_depth s 0) Hsd)|exact RI_init|left; exact HMin].
+      [|rewrite Nat2Z.inj_succ in Hf; lia|exact Hd'|exact Hsafe|exact Hleg|exact Ht|exact Hnk|exact Hh|exact (eq_trans (upd_depth s 0) Hsd)|exact RI_init|left; exact HMin].
     destruct El as (Eb & _ & Hbm). destruct r as [[[al be] bm] sL]. cbn [fst snd] in *.
     destruct (Hbm Eb) as (m0 & -> & Hin0 & Hm0).
     unfold nm_finish in Hfin.
@@ -405,7 +506,6 @@ Hypothesis HM : In M (legal_moves p).
 Hypothesis Hmate : mates p M.
 Hypothesis Hhm : halfmoves c < 100.
 Hypothesis Hrep : NoRep c (k :: hist).
-Hypothesis Hsafe : Safe k p.
 (* (P4): the stop predicate is false up to iteration d, and from iteration d + 1 on (if there is one) it is true *)
 Hypothesis HA : forall st, st_depth st <= d -> stopf st = false.
 Hypothesis HB : MAX_DEPTH <= d + 1 \/ forall st, d < st_depth st -> stopf st = true.
@@ -422,24 +522,24 @@ Proof.
   - intros E. apply Hne. rewrite <- (rev_involutive infos), E. reflexivity.
 Qed.
 
-Lemma root_loop_mate : forall n fuel depth s best infos r, Z.of_nat fuel <= PLYMAX -> 2 <= depth <= d + 1 ->
+Lemma root_loop_mate : forall n fuel depth s best infos r, Z.of_nat fuel <= PLYMAX -> 2 <= depth <= d + 1 -> SafeN fuel k p ->
   TBnd (ss_tt s) -> NoKey k (ss_tt s) -> ss_hist s = hist -> GoodBest best -> st_best (ss_stats s) <> None ->
   AllMate infos -> infos <> [] ->
   root_loop stopf n fuel p depth s best infos = Some r ->
   GoodBest (rr_best r) /\ AllMate (rr_infos r) /\ rr_infos r <> [].
 Proof.
-  induction n as [|n IH]; intros fuel depth s best infos r Hf Hd Ht Hnk Hh Hb Hsb Hi Hne H; cbn [root_loop] in H.
+  induction n as [|n IH]; intros fuel depth s best infos r Hf Hd Hsafe Ht Hnk Hh Hb Hsb Hi Hne H; cbn [root_loop] in H.
   - injection H as <-. exact (ret_ok best infos s Hb Hi Hne).
   - destruct (Z.leb_spec MAX_DEPTH depth) as [Hmax|Hmax]; [injection H as <-; exact (ret_ok best infos s Hb Hi Hne)|].
     cbv zeta in H.
     match type of H with match ?x with _ => _ end = _ => destruct x as [[score s1]|] eqn:E; [|discriminate] end.
     destruct (Z_le_gt_dec depth d) as [Hle|Hgt].
     + assert (Hst : forall st, st_depth st = depth -> stopf st = false) by (intros st Es; apply HA; lia).
-      apply (root_iter_mate stopf p hist M depth Hp HM Hmate Hhm Hrep Hsafe Hst) in E;
-        [|exact Hf|lia|exact Ht|exact Hnk|exact Hh|reflexivity].
+      apply (root_iter_mate stopf p hist M depth Hp HM Hmate Hhm Hrep Hst) in E;
+        [|exact Hf|lia|exact Hsafe|exact Ht|exact Hnk|exact Hh|reflexivity].
       destruct E as (-> & (bm & Ebm & Hin & Hmt) & Ht1 & Hnk1 & Hh1 & Hsd1).
       rewrite Ebm in H. rewrite (Hst _ Hsd1), andb_false_r in H.
-      apply IH in H; [exact H|exact Hf|lia|exact Ht1|exact Hnk1|exact Hh1| | | |].
+      apply IH in H; [exact H|exact Hf|lia|exact Hsafe|exact Ht1|exact Hnk1|exact Hh1| | | |].
       * exists bm. split; [reflexivity|split; [exact Hin|exact Hmt]].
       * rewrite Ebm. discriminate.
       * intros i [<-|Hin']; [reflexivity|exact (Hi i Hin')].
@@ -455,20 +555,20 @@ Proof.
       injection H as <-. exact (ret_ok best infos s1 Hb Hi Hne).
 Qed.
 
-Theorem root_mate fuel tt r : Z.of_nat fuel <= PLYMAX -> 1 <= d -> TBnd tt -> NoKey k tt ->
+Theorem root_mate fuel tt r : Z.of_nat fuel <= PLYMAX -> 1 <= d -> TBnd tt -> NoKey k tt -> SafeN fuel k p ->
   root stopf fuel p hist tt = Some r ->
   GoodBest (rr_best r) /\ AllMate (rr_infos r) /\ rr_infos r <> [].
 Proof.
-  intros Hf Hd Ht Hnk H. unfold root in H.
+  intros Hf Hd Ht Hnk Hsafe H. unfold root in H.
   change 128%nat with (S 127) in H. remember 127%nat as n127 eqn:En. clear En. cbn [root_loop] in H.
   change (MAX_DEPTH <=? 1) with false in H. cbv zeta in H. cbv iota in H.
   match type of H with match ?x with _ => _ end = _ => destruct x as [[score s1]|] eqn:E; [|discriminate] end.
   assert (Hst : forall st, st_depth st = 1 -> stopf st = false) by (intros st Es; apply HA; lia).
-  apply (root_iter_mate stopf p hist M 1 Hp HM Hmate Hhm Hrep Hsafe Hst) in E;
-    [|exact Hf|lia|exact Ht|exact Hnk|reflexivity|reflexivity].
+  apply (root_iter_mate stopf p hist M 1 Hp HM Hmate Hhm Hrep Hst) in E;
+    [|exact Hf|lia|exact Hsafe|exact Ht|exact Hnk|reflexivity|reflexivity].
   destruct E as (-> & (bm & Ebm & Hin & Hmt) & Ht1 & Hnk1 & Hh1 & Hsd1).
   rewrite Ebm in H. change (1 <? 1) with false in H. cbn [andb] in H.
-  apply root_loop_mate in H; [exact H|exact Hf|lia|exact Ht1|exact Hnk1|exact Hh1| | | |].
+  apply root_loop_mate in H; [exact H|exact Hf|lia|exact Hsafe|exact Ht1|exact Hnk1|exact Hh1| | | |].
   - exists bm. split; [reflexivity|split; [exact Hin|exact Hmt]].
   - rewrite Ebm. discriminate.
   - intros i [<-|[]]. reflexivity.
@@ -484,20 +584,21 @@ Proof.
   intros Hp Hm Hh. destruct (SearchTotal.child_clock true p m (SearchTotal.InvSR_Inv0 p Hp) Hm) as [(E & _)|(E & _)]; rewrite E; lia.
 Qed.
 
-(* depth limit d >= 1 ("go depth d"): the iterations 1 .. d are searched, all of them report the mate score, and the answer mates *)
+(* depth limit d >= 1 ("go depth d"): the iterations 1 .. d are searched, all of them report the mate score, and the answer mates.
+   (P3) speaks about the positions within `fuel` plies of p only, for the fuel `root` is run with *)
 Theorem mate_in_one_is_played d fuel p hist tt r M :
   InvSR p -> TBnd tt -> Z.of_nat fuel <= 599998 ->
   halfmoves p < 99 ->                                                   (* P1 *)
   In M (legal_moves p) -> mates p M ->
   NoRep (makemove true p M) (hash (makemove true p M) :: hist) ->       (* P2 *)
-  NoKey (hash (makemove true p M)) tt -> Safe (hash (makemove true p M)) p ->   (* P3 *)
+  NoKey (hash (makemove true p M)) tt -> SafeN fuel (hash (makemove true p M)) p ->   (* P3 *)
   1 <= d ->
   root (stop_of (LDepth d)) fuel p hist tt = Some r ->                  (* P4: the limit is a depth limit *)
   (exists bm, rr_best r = Some bm /\ In bm (legal_moves p) /\ mates p bm) /\
   (forall i, In i (rr_infos r) -> i_score i = MATE_SCORE - 1) /\ rr_infos r <> [].
 Proof.
   intros Hp Ht Hf Hh HM Hmate Hrep Hnk Hsafe Hd H.
-  refine (root_mate (stop_of (LDepth d)) p hist M d Hp HM Hmate (child_halfmoves p M Hp HM Hh) Hrep Hsafe _ _ fuel tt r Hf Hd Ht Hnk H).
+  refine (root_mate (stop_of (LDepth d)) p hist M d Hp HM Hmate (child_halfmoves p M Hp HM Hh) Hrep _ _ fuel tt r Hf Hd Ht Hnk Hsafe H).
   - intros st Hs. cbn [stop_of]. apply Z.ltb_ge. exact Hs.
   - right. intros st Hs. cbn [stop_of]. apply Z.ltb_lt. exact Hs.
 Qed.
@@ -507,13 +608,13 @@ Theorem mate_in_one_is_played_unlimited fuel p hist tt r M :
   InvSR p -> TBnd tt -> Z.of_nat fuel <= 599998 ->
   halfmoves p < 99 -> In M (legal_moves p) -> mates p M ->
   NoRep (makemove true p M) (hash (makemove true p M) :: hist) ->
-  NoKey (hash (makemove true p M)) tt -> Safe (hash (makemove true p M)) p ->
+  NoKey (hash (makemove true p M)) tt -> SafeN fuel (hash (makemove true p M)) p ->
   root (stop_of LNever) fuel p hist tt = Some r ->
   (exists bm, rr_best r = Some bm /\ In bm (legal_moves p) /\ mates p bm) /\
   (forall i, In i (rr_infos r) -> i_score i = MATE_SCORE - 1) /\ rr_infos r <> [].
 Proof.
   intros Hp Ht Hf Hh HM Hmate Hrep Hnk Hsafe H.
-  refine (root_mate (stop_of LNever) p hist M 127 Hp HM Hmate (child_halfmoves p M Hp HM Hh) Hrep Hsafe _ _ fuel tt r Hf ltac:(lia) Ht Hnk H).
+  refine (root_mate (stop_of LNever) p hist M 127 Hp HM Hmate (child_halfmoves p M Hp HM Hh) Hrep _ _ fuel tt r Hf ltac:(lia) Ht Hnk Hsafe H).
   - intros st _. reflexivity.
   - left. unfold MAX_DEPTH. lia.
 Qed.
@@ -522,12 +623,67 @@ Qed.
 Corollary mate_in_one_is_played_fresh d fuel p hist tt r M :
   InvSR p -> TBnd tt -> Z.of_nat fuel <= 599998 -> halfmoves p < 99 -> In M (legal_moves p) -> mates p M ->
   ~ In (hash (makemove true p M)) hist ->
-  NoKey (hash (makemove true p M)) tt -> Safe (hash (makemove true p M)) p -> 1 <= d ->
+  NoKey (hash (makemove true p M)) tt -> SafeN fuel (hash (makemove true p M)) p -> 1 <= d ->
   root (stop_of (LDepth d)) fuel p hist tt = Some r ->
   (exists bm, rr_best r = Some bm /\ In bm (legal_moves p) /\ mates p bm) /\
   (forall i, In i (rr_infos r) -> i_score i = MATE_SCORE - 1) /\ rr_infos r <> [].
 Proof.
   intros Hp Ht Hf Hh HM Hmate Hni. exact (mate_in_one_is_played d fuel p hist tt r M Hp Ht Hf Hh HM Hmate (notin_NoRep _ hist Hni)).
+Qed.
+
+(* The fuel in (P3) may be the smallest one that makes the search return: the result of `root` does not depend on the
+   fuel once it is defined (FuelFacts.root_fuel_mono).  If the search returns with fuel0 and no position with a legal move
+   within fuel0 plies of p has the key k, every run with at least that much fuel (no upper bound) plays a mate *)
+Corollary mate_in_one_is_played_anyfuel d fuel0 fuel p hist tt r0 r M :
+  InvSR p -> TBnd tt -> Z.of_nat fuel0 <= 599998 -> halfmoves p < 99 -> In M (legal_moves p) -> mates p M ->
+  NoRep (makemove true p M) (hash (makemove true p M) :: hist) ->
+  NoKey (hash (makemove true p M)) tt -> SafeN fuel0 (hash (makemove true p M)) p -> 1 <= d ->
+  root (stop_of (LDepth d)) fuel0 p hist tt = Some r0 -> (fuel0 <= fuel)%nat ->
+  root (stop_of (LDepth d)) fuel p hist tt = Some r ->
+  (exists bm, rr_best r = Some bm /\ In bm (legal_moves p) /\ mates p bm) /\
+  (forall i, In i (rr_infos r) -> i_score i = MATE_SCORE - 1) /\ rr_infos r <> [].
+Proof.
+  intros Hp Ht Hf Hh HM Hmate Hrep Hnk Hsafe Hd H0 Hle H.
+  pose proof (FuelFacts.root_fuel_mono (stop_of (LDepth d)) fuel0 fuel p hist tt r0 Hle H0) as H1.
+  assert (E : r = r0) by (rewrite H1 in H; apply (f_equal (fun o => match o with Some x => x | None => r end)) in H; symmetry; exact H).
+  rewrite E. exact (mate_in_one_is_played d fuel0 p hist tt r0 M Hp Ht Hf Hh HM Hmate Hrep Hnk Hsafe Hd H0).
+Qed.
+
+(* the statements with the old premise `Safe` (nothing reachable from p, at any distance, has the key k) *)
+Corollary mate_in_one_is_played_safe d fuel p hist tt r M :
+  InvSR p -> TBnd tt -> Z.of_nat fuel <= 599998 -> halfmoves p < 99 -> In M (legal_moves p) -> mates p M ->
+  NoRep (makemove true p M) (hash (makemove true p M) :: hist) ->
+  NoKey (hash (makemove true p M)) tt -> Safe (hash (makemove true p M)) p -> 1 <= d ->
+  root (stop_of (LDepth d)) fuel p hist tt = Some r ->
+  (exists bm, rr_best r = Some bm /\ In bm (legal_moves p) /\ mates p bm) /\
+  (forall i, In i (rr_infos r) -> i_score i = MATE_SCORE - 1) /\ rr_infos r <> [].
+Proof.
+  intros Hp Ht Hf Hh HM Hmate Hrep Hnk Hsafe.
+  exact (mate_in_one_is_played d fuel p hist tt r M Hp Ht Hf Hh HM Hmate Hrep Hnk (Safe_SafeN fuel _ p Hsafe)).
+Qed.
+
+Corollary mate_in_one_is_played_unlimited_safe fuel p hist tt r M :
+  InvSR p -> TBnd tt -> Z.of_nat fuel <= 599998 -> halfmoves p < 99 -> In M (legal_moves p) -> mates p M ->
+  NoRep (makemove true p M) (hash (makemove true p M) :: hist) ->
+  NoKey (hash (makemove true p M)) tt -> Safe (hash (makemove true p M)) p ->
+  root (stop_of LNever) fuel p hist tt = Some r ->
+  (exists bm, rr_best r = Some bm /\ In bm (legal_moves p) /\ mates p bm) /\
+  (forall i, In i (rr_infos r) -> i_score i = MATE_SCORE - 1) /\ rr_infos r <> [].
+Proof.
+  intros Hp Ht Hf Hh HM Hmate Hrep Hnk Hsafe.
+  exact (mate_in_one_is_played_unlimited fuel p hist tt r M Hp Ht Hf Hh HM Hmate Hrep Hnk (Safe_SafeN fuel _ p Hsafe)).
+Qed.
+
+Corollary mate_in_one_is_played_fresh_safe d fuel p hist tt r M :
+  InvSR p -> TBnd tt -> Z.of_nat fuel <= 599998 -> halfmoves p < 99 -> In M (legal_moves p) -> mates p M ->
+  ~ In (hash (makemove true p M)) hist ->
+  NoKey (hash (makemove true p M)) tt -> Safe (hash (makemove true p M)) p -> 1 <= d ->
+  root (stop_of (LDepth d)) fuel p hist tt = Some r ->
+  (exists bm, rr_best r = Some bm /\ In bm (legal_moves p) /\ mates p bm) /\
+  (forall i, In i (rr_infos r) -> i_score i = MATE_SCORE - 1) /\ rr_infos r <> [].
+Proof.
+  intros Hp Ht Hf Hh HM Hmate Hni Hnk Hsafe.
+  exact (mate_in_one_is_played_fresh d fuel p hist tt r M Hp Ht Hf Hh HM Hmate Hni Hnk (Safe_SafeN fuel _ p Hsafe)).
 Qed.
 
 (* (P3) for the tables the engine starts from: an empty table has no entry with key k unless k = 0 (the default entry
@@ -542,10 +698,15 @@ Proof. intros Hk. exact (NoKey_empty k _ Hk (table_empty_clear t)). Qed.
 Print Assumptions mate_in_one_is_played.
 Print Assumptions mate_in_one_is_played_unlimited.
 Print Assumptions mate_in_one_is_played_fresh.
+Print Assumptions mate_in_one_is_played_anyfuel.
+Print Assumptions mate_in_one_is_played_safe.
+Print Assumptions mate_in_one_is_played_unlimited_safe.
+Print Assumptions mate_in_one_is_played_fresh_safe.
 
 (* ------------------------------------------------------------------ a worked example, and why (P3) cannot be dropped.
-   White: Ke1 Ra1, Black: Kg8 f7 g7 h7; Ra8 is mate.  All premises except `Safe` (a statement about the whole search
-   tree: no position with a legal move has the key of the mated position) are checked by computation.
+   White: Ke1 Ra1, Black: Kg8 f7 g7 h7; Ra8 is mate.  All premises except `SafeN fuel` (a statement about the search
+   tree: no position with a legal move within `fuel` plies of the root has the key of the mated position) are checked
+   by computation.
    On a new table the model reports 999999 = MATE_SCORE - 1 at every iteration and answers a1a8.
    On a table that satisfies TBnd but holds ONE misleading entry under the key of the mated position (score 900000 for
    the mated side, depth 100, exact) the search does NOT find the mate: a1a8 is not the first move in the ordering, so it
@@ -572,7 +733,7 @@ Proof.
   - apply NoKey_new. intros E. apply N.eqb_eq in E. vm_compute in E. discriminate.
 Qed.
 
-Example ex_theorem d fuel r : Z.of_nat fuel <= 599998 -> 1 <= d -> Safe ex_k ex_pos ->
+Example ex_theorem d fuel r : Z.of_nat fuel <= 599998 -> 1 <= d -> SafeN fuel ex_k ex_pos ->
   root (stop_of (LDepth d)) fuel ex_pos [hash ex_pos] (tt_new 1) = Some r ->
   (exists bm, rr_best r = Some bm /\ In bm (legal_moves ex_pos) /\ mates ex_pos bm) /\
   (forall i, In i (rr_infos r) -> i_score i = MATE_SCORE - 1) /\ rr_infos r <> [].
@@ -580,6 +741,29 @@ Proof.
   intros Hf Hd Hs. destruct ex_premises as (Hp & Hh & HM & Hm & Hn & Hk).
   exact (mate_in_one_is_played_fresh d fuel ex_pos [hash ex_pos] (tt_new 1) r ex_M Hp (TBnd_new 1) Hf Hh HM Hm Hn Hk Hs Hd).
 Qed.
+
+(* ... and here `SafeN` can be checked too.  With depth limit 3 the search returns with fuel 3; the positions within 3 plies
+   of the root are enumerated (`safeb`), none with a legal move has the key of the mated position; so for EVERY fuel >= 3
+   with which `root` returns, it plays a mate: no premise about the search tree is left *)
+Lemma ex_safe3 : SafeN 3 ex_k ex_pos.
+Proof. apply safeb_sound. vm_compute. reflexivity. Qed.
+
+Lemma is_some_ex {A} (o : option A) : (match o with Some _ => true | None => false end) = true -> exists x, o = Some x.
+Proof. destruct o as [x|]; [intros _; exists x; reflexivity|discriminate]. Qed.
+
+Example ex_closed fuel r : (3 <= fuel)%nat ->
+  root (stop_of (LDepth 3)) fuel ex_pos [hash ex_pos] (tt_new 1) = Some r ->
+  (exists bm, rr_best r = Some bm /\ In bm (legal_moves ex_pos) /\ mates ex_pos bm) /\
+  (forall i, In i (rr_infos r) -> i_score i = MATE_SCORE - 1) /\ rr_infos r <> [].
+Proof.
+  intros Hf H. destruct ex_premises as (Hp & Hh & HM & Hm & Hn & Hk).
+  assert (H0 : exists r0, root (stop_of (LDepth 3)) 3 ex_pos [hash ex_pos] (tt_new 1) = Some r0).
+  { apply is_some_ex. vm_compute. reflexivity. }
+  destruct H0 as (r0 & H0).
+  exact (mate_in_one_is_played_anyfuel 3 3 fuel ex_pos [hash ex_pos] (tt_new 1) r0 r ex_M Hp (TBnd_new 1) ltac:(cbn; lia) Hh HM Hm
+           (notin_NoRep _ _ Hn) Hk ex_safe3 ltac:(lia) H0 Hf H).
+Qed.
+Print Assumptions ex_closed.
 
 Definition ex_show (o : option RootResult) : option Mv * list (Z * Z) :=
   match o with
